@@ -395,8 +395,11 @@ def rule_no_carry_over(ctx, rep: Report, rid="S1"):
                     f"variable(s) {names} are used in the loop body before they are (re)assigned later in the same "
                     f"body: from the second instantiation tuple on they hold what was computed for the previous "
                     f"tuple, so one instantiation receives another's types", f"{mi.rel}:{loop.lineno}")
-    if n < 3:
-        raise AnalysisError(f"{rep.prop}/{rid}: {n} instantiation loops found, 3 expected")
+    # a loop that became a comprehension cannot carry anything over: what must not vanish is the scanned code, not the loops
+    scanned = sum(1 for fid in eff.funcs if fid.rel.startswith(TI))
+    rep.units["instantiation_loops"] = n
+    if scanned < 20:
+        raise AnalysisError(f"{rep.prop}/{rid}: only {scanned} functions of the instantiator were scanned")
 
 
 def _accumulates(st, name) -> bool:
